@@ -5,9 +5,18 @@ pub mod c03;
 pub mod c04;
 pub mod c05;
 pub mod c06;
+pub mod c08;
 pub mod c09;
 pub mod c10;
+pub mod c11;
+pub mod c12;
+pub mod c13;
+pub mod c14;
+pub mod c15;
 pub mod c16;
+pub mod c17;
+pub mod c18;
+pub mod c19;
 
 use crate::engine::Ctx;
 use common::AnySub;
@@ -35,8 +44,17 @@ pub fn registry() -> Vec<Prop> {
         Prop { id: "C04", rule: c04::RULE, subs: c04::subs, assumptions: &[], extra: None },
         Prop { id: "C05", rule: c05::RULE, subs: c05::subs, assumptions: &[], extra: None },
         Prop { id: "C06", rule: c06::RULE, subs: c06::subs, assumptions: &[], extra: None },
+        Prop { id: "C08", rule: c08::RULE, subs: c08::subs, assumptions: &["abnormal termination that is not an unwinding panic (abort, stack overflow) would end the check process itself and be reported as exit 2 by the driver"], extra: None },
         Prop { id: "C09", rule: c09::RULE, subs: c09::subs, assumptions: &[], extra: None },
+        Prop { id: "C11", rule: c11::RULE, subs: c11::subs, assumptions: &[], extra: None },
+        Prop { id: "C12", rule: c12::RULE, subs: c12::subs, assumptions: &[], extra: None },
+        Prop { id: "C13", rule: c13::RULE, subs: c13::subs, assumptions: &[], extra: None },
+        Prop { id: "C14", rule: c14::RULE, subs: c14::subs, assumptions: &[], extra: None },
+        Prop { id: "C15", rule: c15::RULE, subs: c15::subs, assumptions: &[], extra: None },
         Prop { id: "C16", rule: c16::RULE, subs: c16::subs, assumptions: &[], extra: None },
+        Prop { id: "C17", rule: c17::RULE, subs: c17::subs, assumptions: &[], extra: None },
+        Prop { id: "C18", rule: c18::RULE, subs: c18::subs, assumptions: &["thread interleavings are sampled by the OS scheduler, not enumerated"], extra: Some(c18::extra) },
+        Prop { id: "C19", rule: c19::RULE, subs: c19::subs, assumptions: &[], extra: None },
         Prop { id: "C10", rule: c10::RULE, subs: c10::subs, assumptions: &[], extra: Some(c10::extra) },
     ]
 }
